@@ -3,7 +3,7 @@
    `reachable c s` = s is the state after SOME event list accepted by the parallel_safe transition system of
    configuration c (size, instances, argument entries, failing subset): all interleavings of the main thread and
    the member threads, with no bound on anything. *)
-From CF Require Import Common.Bytes C19.Model C19.Proofs C19.Proofs_b C19.Proofs_c C19.Proofs_d C19.Proofs_e C19.Proofs_f C19.Proofs_g.
+From CF Require Import Common.Bytes C19.Model C19.Proofs C19.Proofs_b C19.Proofs_c C19.Proofs_d C19.Proofs_e C19.Proofs_f C19.Proofs_g C19.Proofs_h.
 From Coq Require Import Permutation.
 Open Scope nat_scope.
 
@@ -240,3 +240,26 @@ Theorem C19_filtered_members_refuted :
                   n (restrict c (action_members_filtered c (srun evs))) < n c /\ In k (action_members c (srun evs)).
 Proof. exact filtered_members_refuted. Qed.
 Print Assumptions C19_filtered_members_refuted.
+
+(* ---- Wave 13: error objects with a __cause__ link (`raise Outer(...) from inner`).  The wrapper reports the object
+   the action raised: for every cause function and every list of raised errors, what parallel_safe chains is one of the
+   raised objects, and it raises iff there is one. *)
+Theorem C19_reported_error_is_raised : forall cause errs,
+  (forall e, run_reporting (report_id cause) errs = Some e -> In e errs) /\
+  (run_reporting (report_id cause) errs = None <-> errs = []).
+Proof. exact reported_error_is_raised. Qed.
+Print Assumptions C19_reported_error_is_raised.
+
+(* refutation of reporting the root cause instead: whenever the first raised error carries a cause that no action raised,
+   the caller gets an error that is not in the raised set *)
+Theorem C19_root_cause_variant_not_raised : forall cause fuel e c rest,
+  cause e = Some c -> cause c = None -> ~ In c (e :: rest) -> fuel >= 1 ->
+  exists r, run_reporting (root_cause cause fuel) (e :: rest) = Some r /\ ~ In r (e :: rest).
+Proof. exact root_cause_variant_not_raised. Qed.
+Print Assumptions C19_root_cause_variant_not_raised.
+
+Theorem C19_root_cause_variant_refuted :
+  exists cause errs r, run_reporting (root_cause cause 3) errs = Some r /\ ~ In r errs /\
+                       run_reporting (report_id cause) errs = Some 1 /\ In 1 errs.
+Proof. exact root_cause_variant_refuted. Qed.
+Print Assumptions C19_root_cause_variant_refuted.
